@@ -19,7 +19,7 @@ RULE = ('multi-segment multi-chunk model files with several channels; non-trivia
         'other channels and has >=2 chunks; distinct = (per-segment signatures, channel)')
 ASSUMPTIONS = ['"constant number of bytes per segment touched" = the 4-byte segment tag the reader verifies before reading a segment',
                'an empty request may touch at most the one chunk containing its offset']
-REQUIRED = ['truncated_files', 'daqmx_files', 'requests', 'reads_checked', 'cached_index_checked', 'bytes_allowed', 'requests_partial']
+REQUIRED = ['short_last_files', 'truncated_files', 'daqmx_files', 'requests', 'reads_checked', 'cached_index_checked', 'bytes_allowed', 'requests_partial']
 N = {'quick': 800, 'thorough': 200000}
 
 
@@ -28,6 +28,8 @@ def gen_cases(tier, seed):
         yield {'s': seed * 1000003 + i}
     for i in range(N[tier] // 4):
         yield {'s': seed * 1000003 + i, 'cut': True}
+    for i in range(N[tier] // 4):
+        yield {'s': seed * 1000003 + i, 'short_last': True}
     for i in range(N[tier] // 4):
         yield {'s': seed * 1000003 + i, 'daqmx': True}
 
@@ -123,9 +125,76 @@ def daqmx_case(case, ctx):
         tf.close()
 
 
+def short_last_case(case, ctx):
+    """A complete segment (explicit offsets) whose last chunk is proportionally shorter: k < n values of every channel."""
+    import struct
+    from nptdms import TdmsFile
+    rng = random.Random('c19s/%d' % case['s'])
+    nch = rng.randint(2, 3)
+    n = rng.randint(3, 9)
+    types = [rng.choice(['i32', 'f64', 'i16', 'u8']) for _ in range(nch)]
+    chans = [('g', 'c%d' % i, types[i], n, []) for i in range(nch)]
+    segs = M.build_file(rng, chans, nseg=rng.randint(1, 2), nchunks=(rng.randint(2, 3),), continuation='same')
+    blob, _, lay = M.encode_file(segs)
+    last = lay.segs[-1]
+    k = rng.randint(1, n - 1)
+    cstart, clen, per = last['chunks'][-1]
+    short = b''.join(blob[per[M.qpath('g', 'c%d' % i)][0]:per[M.qpath('g', 'c%d' % i)][0] + k * M.TYPES[types[i]][2]] for i in range(nch))
+    b = bytearray(blob[:cstart] + short)
+    e = segs[-1].endian
+    nxt = struct.unpack(e + 'Q', bytes(b[last['start'] + 12:last['start'] + 20]))[0]
+    b[last['start'] + 12:last['start'] + 20] = struct.pack(e + 'Q', nxt - (clen - len(short)))
+    blob = bytes(b)
+    stream = TraceIO(blob)
+    tf = TdmsFile.open(stream)
+    ctx.count('short_last_files')
+    desc = {'n': n, 'k': k, 'types': types, 'segments': [s.describe() for s in segs][:2]}
+    try:
+        for i in range(nch):
+            p = M.qpath('g', 'c%d' % i)
+            ch = tf['g']['c%d' % i]
+            size = M.TYPES[types[i]][2]
+            table, pos = [], 0
+            for si, l in enumerate(lay.segs):
+                for ci, (cs, cl, pr) in enumerate(l['chunks']):
+                    if si == len(lay.segs) - 1 and ci == len(l['chunks']) - 1:
+                        off = cs + sum(k * M.TYPES[types[j]][2] for j in range(i))
+                        table.append((si, pos, pos + k, (off, k * size)))
+                        pos += k
+                    else:
+                        table.append((si, pos, pos + n, pr[p]))
+                        pos += n
+            total = len(ch)
+            if total != pos:
+                ctx.count('short_last_count_differs(observation)')
+                continue
+            ctx.evaluation()
+            ctx.distinct(('short-last', n, k, tuple(types), i))
+            wins = [(o, l_) for o in range(max(0, total - 2 * n), total + 1) for l_ in (1, 2, k, n, None)]
+            for o, l_ in wins:
+                bnd = total if l_ is None else min(total, o + l_)
+                regs, hit = allowed_for(table, lay, o, bnd, empty_at=o)
+                mark = stream.mark()
+                ch.read_data(o, l_)
+                judge(ctx, stream, mark, regs, 'window/short-final-chunk', {'path': p, 'offset': o, 'length': l_, 'n': total, 'file': desc})
+            for idx in (total - 1, -1, total - k, total - k - 1):
+                ch._cached_chunk = None
+                ch._cached_chunk_bounds = None
+                t = [t_ for t_ in table if t_[1] <= idx % total < t_[2]][0]
+                mark = stream.mark()
+                ch[idx]
+                judge(ctx, stream, mark, [(lay.segs[t[0]]['start'], 4), t[3]], 'index/short-final-chunk', {'path': p, 'index': idx, 'n': total, 'file': desc})
+    except Exception as ex:
+        ctx.violation('raises/short-last/%s' % util.exc_key(ex), {'exc': util.exc_detail(ex), 'file': desc})
+    finally:
+        tf.close()
+
+
 def run_case(case, ctx):
     if case.get('daqmx'):
         return daqmx_case(case, ctx)
+    if case.get('short_last'):
+        return short_last_case(case, ctx)
     from nptdms import TdmsFile
     segs, rng = build(case)
     blob, _, lay = M.encode_file(segs)
